@@ -20,7 +20,8 @@ from sim.spec import spec_kinds
 from .base import Check, Verdict, resolve_perturb, engine_nonoptimal
 
 OBJECTIVES = ["MinimizeMakespan", "MinimizeFlowtime", "TasksStartLatest", "TasksStartEarliest", "Priorities", "MinimizeGreatestStartTime",
-              "MaximizeResourceUtilization", "MinimizeResourceCost", "MaximizeIndicator", "MinimizeIndicator", "MaximizeIndicator", "MinimizeIndicator"]
+              "MaximizeResourceUtilization", "MinimizeResourceCost", "MaximizeIndicator", "MinimizeIndicator", "MaximizeIndicator", "MinimizeIndicator",
+              "MinimizeFlowtimeSingleResource"]
 SAFE_CONSTRAINTS = ["TaskStartAfter", "TaskEndBefore", "TaskPrecedence", "TasksStartSynced", "TasksEndSynced", "TasksDontOverlap",
                     "ResourceUnavailable", "OptionalTaskForceSchedule", "ForceScheduleNOptionalTasks"]
 VALIDITY_PROPS = frozenset({"C01", "C02", "C03", "C04"})
